@@ -377,6 +377,10 @@ def replay_limits(vals):
     return bad, "real model on n=%d, count=%d, u=%r (%s): usl=%r (expected %r), lsl=%r (expected %r)" % (n, c, u, source, usl, ru, lsl, rl)
 
 
+LimitsFP.replay = lambda self, vals: replay_limits(vals)
+ComparatorFP.replay = lambda self, vals: replay_comparator(vals)
+
+
 def obligations(tier):
     obs = []
     if tier == "quick":
